@@ -1,4 +1,5 @@
 import logging
+import threading
 
 from bardolph.lib.job_control import Job
 from bardolph.vm.machine import Machine, MachineState, Registers
@@ -11,6 +12,11 @@ class ScriptJob(Job):
         self._program = None
         self._parser = Parser()
         self._machine = Machine()
+
+        # A stop request is remembered until the run it applies to is over, so
+        # that it takes effect even if the machine isn't running yet.
+        self._lock = threading.Lock()
+        self._stop_requested = False
 
     @staticmethod
     def from_file(file_name):
@@ -52,9 +58,22 @@ class ScriptJob(Job):
         return self._machine.get_state()
 
     def execute(self):
-        if self._program is not None:
-            self._machine.reset()
-            self._machine.run(self._program)
+        try:
+            if self._program is not None and not self._stop_requested:
+                self._machine.reset()
+                if not self._stop_requested:
+                    self._machine.run(self._program)
+        finally:
+            with self._lock:
+                self._stop_requested = False
 
     def request_stop(self):
-        self._machine.stop()
+        with self._lock:
+            self._stop_requested = True
+            self._machine.stop()
+
+    def run_finished(self):
+        # A stop request that arrived just as the run was ending must not
+        # apply to the next one.
+        with self._lock:
+            self._stop_requested = False
